@@ -157,11 +157,3 @@ Theorem C07_proc_percent_all_sequences : forall clk evs,
   Forall2 (out_eq Qeq) (proc_run clk [] evs) (spec_proc_run clk [] evs).
 Proof. exact proc_run_spec. Qed.
 Print Assumptions C07_proc_percent_all_sequences.
-
-(* ---- the hypotheses are satisfiable by non-trivial inputs *)
-Example C07_wf_example :
-  wf_kstat 10 {| ks_total := [bs "105"; bs "0"; bs "50"; bs "1015"; bs "10"; bs "0"; bs "3"; bs "0"; bs "7"; bs "0"];
-                 ks_cpus := [(bs "0", [bs "105"; bs "0"; bs "50"; bs "1015"; bs "10"; bs "0"; bs "3"; bs "0"; bs "7"; bs "0"])];
-                 ks_tail := [(Tintr, [bs "5"; bs "1"]); (Tctxt, [bs "7"])] |} = true
-  /\ (Zpos 100 <= spec_total (dticks [100; 0; 50; 1000; 10; 0; 3; 0; 7; 0] [190; 0; 50; 1115; 10; 0; 3; 0; 9; 0]))%Z.
-Proof. split; vm_compute; congruence. Qed.
